@@ -1,20 +1,20 @@
 CONSTANTS
   Procs = {1}
-  Clients = {"c1", "c2"}
+  Clients = {"c1"}
   Forms = {"v4"}
   CCs = {}
   SVs = {}
   Shorts = {}
   Protos = {"udp"}
-  Questions = {"fresh"}
-  Entries = {"msg"}
+  Questions = {"q1", "al1"}
+  Entries = {"msg", "wire"}
   Exempts = {}
   Odds = {FALSE}
-  Burst = 2
+  Burst = 3
   StoreCap = 2
-  EntryBurst = 0
+  EntryBurst = 1
   BigQs = {}
-  MaxOps = 2
+  MaxOps = 3
   MaxPend = 1
   MaxAge = 2
   TickSet = {}
@@ -24,13 +24,12 @@ CONSTANTS
   ChargeOnReplay = FALSE
   EchoCached = FALSE
   ReuseEvicted = FALSE
-  SharedKey = TRUE
+  SharedKey = FALSE
   ChargeBeforeFit = FALSE
-  LimitInternal = FALSE
-  Aliases = {}
+  LimitInternal = TRUE
+  Aliases = {"al1"}
   AliasTarget = "q1"
 SPECIFICATION Spec
-INVARIANTS TypeOK OneChargePerQuestion DropIsSilent ClientWithinBudget NoSharedBucket RememberedIsOwn ExemptNeverLimited InternalNeverLimited
-  ReplyCookieIsOwn AnswerCarriesCookie BadCookieSound VerifiedIsFree HandoffOnlyInline SameOutcomeAcrossEntries
+INVARIANTS InternalNeverLimited
 PROPERTIES DropLeavesNoTrace EvictionOnlyResets BucketIsolation ExemptUntouched TokensNeverRefillWithoutTime
 CHECK_DEADLOCK FALSE
